@@ -475,11 +475,44 @@ def check_segment_lines(ctx, templates: List[Template]) -> None:
     ctx.floor('W2', n, 6, 'segment-line subscripts')
 
 
+def _as_conditional(repo, f, v: ast.AST) -> ast.AST:
+    """`Helper(arg)` whose body is named intermediates + `if T: return A` + `return B` (or one returned conditional expression) read as
+    the conditional expression `A if T else B` with the parameter replaced by the argument (helper extraction)."""
+    from gxstat.inline import substitute
+    if not isinstance(v, ast.Call) or v.keywords:
+        return v
+    name = v.func.attr if isinstance(v.func, ast.Attribute) else v.func.id if isinstance(v.func, ast.Name) else None
+    m = None
+    if name and f.cls is not None:
+        m = repo.resolve_method(f.cls, name)
+    if m is None and name in f.module.functions:
+        m = f.module.functions[name]
+    if m is None:
+        return v
+    params = [a.arg for a in m.node.args.args if a.arg not in ('self', 'cls')]
+    if len(params) != len(v.args):
+        return v
+    env = dict(zip(params, v.args))
+    body = [s_ for s_ in m.node.body if not (isinstance(s_, ast.Expr) and isinstance(s_.value, ast.Constant))]
+    for s_ in body:
+        if isinstance(s_, ast.Assign) and len(s_.targets) == 1 and isinstance(s_.targets[0], ast.Name):
+            env[s_.targets[0].id] = substitute(s_.value, env)
+    tail = [s_ for s_ in body if not isinstance(s_, ast.Assign)]
+    if len(tail) == 1 and isinstance(tail[0], ast.Return) and isinstance(tail[0].value, ast.IfExp):
+        return substitute(tail[0].value, env)
+    if len(tail) == 2 and isinstance(tail[0], ast.If) and not tail[0].orelse and len(tail[0].body) == 1 and isinstance(tail[0].body[0], ast.Return) \
+            and isinstance(tail[1], ast.Return) and tail[0].body[0].value is not None and tail[1].value is not None:
+        e = ast.IfExp(test=tail[0].test, body=tail[0].body[0].value, orelse=tail[1].value)
+        ast.copy_location(e, v)
+        return substitute(ast.fix_missing_locations(e), env)
+    return v
+
+
 def check_payback_na(ctx) -> None:
     f = ctx.repo.method('Outputs', 'PrintOutputs', 'geophires_x/Outputs.py')
     defs = [s for s in ast.walk(f.node) if isinstance(s, ast.Assign) and norm(s.targets[0]) == 'project_payback_period_display']
     ctx.require(len(defs) == 1, 'Outputs.PrintOutputs: payback display definition not found')
-    v = defs[0].value
+    v = _as_conditional(ctx.repo, f, defs[0].value)
     loc = {norm(s.targets[0]): norm(s.value) for s in ast.walk(f.node) if isinstance(s, ast.Assign) and isinstance(s.targets[0], ast.Name)}
     def ex(txt):
         for k, val in loc.items():
